@@ -27,7 +27,7 @@ var HeaderMutations = []string{"height-plus1", "height-minus1", "version", "time
 	"wrong-proposer", "outsider-signature", "bad-signature", "no-signature",
 	"cb-amount-plus1", "cb-proposer-plus", "cb-amount-minus1", "cb-extra-recipient", "cb-missing-recipient", "cb-zero-standin", "cb-vote-output", "tx-unbalanced"}
 
-var badSupKinds = []string{"garbage", "wrong-slot", "non-validator", "other-link", "unused-slot"}
+var badSupKinds = []string{"garbage", "wrong-slot", "non-validator", "other-link", "unused-slot", "unknown-source", "wrong-source-height"}
 
 func genTx(t *rapid.T, opt GenOpt, allowBad bool) TxDesc {
 	kinds := goodKinds
